@@ -67,6 +67,9 @@ type Ctx struct {
 	// every allocation made during the analysed call (parameters). Used to decide ref equalities.
 	FreshBase map[int]bool
 	OldRef    map[int]bool
+	// AllocLB: an allocation-counter variable is at least Root+Off (Root: an earlier counter
+	// without a bound of its own); counters never wrap (stated assumption: < 2^27 allocations)
+	AllocLB map[int]AllocBound
 	tab       map[string]*Term
 	n         int
 	fresh     int
@@ -75,7 +78,7 @@ type Ctx struct {
 }
 
 func NewCtx() *Ctx {
-	c := &Ctx{tab: map[string]*Term{}, FreshBase: map[int]bool{}, OldRef: map[int]bool{}}
+	c := &Ctx{tab: map[string]*Term{}, FreshBase: map[int]bool{}, OldRef: map[int]bool{}, AllocLB: map[int]AllocBound{}}
 	c.True = c.mk(&Term{Op: "true", S: Bool})
 	c.False = c.mk(&Term{Op: "false", S: Bool})
 	return c
@@ -351,6 +354,13 @@ func (c *Ctx) Eq(a, b *Term) *Term {
 			_, ka := splitAdd(a)
 			_, kb := splitAdd(b)
 			return c.BoolConst(ka == kb)
+		}
+		if fa != nil && fb != nil {
+			ra, oa, xa := c.allocBound(a)
+			rb, ob, xb := c.allocBound(b)
+			if ra == rb && (xa && !xb && ob > oa || xb && !xa && oa > ob) {
+				return c.False
+			}
 		}
 	}
 	if a.S == Bool {
@@ -948,6 +958,34 @@ func (c *Ctx) distinct(i, j *Term) bool {
 		return true
 	}
 	return false
+}
+
+type AllocBound struct {
+	Root *Term
+	Off  uint64
+}
+
+// SetAllocLB records v >= prev for the counter variable v, prev being counter or counter+k.
+func (c *Ctx) SetAllocLB(v, prev *Term) {
+	delete(c.AllocLB, v.id) // names are reused from run to run
+	b, k := splitAdd(prev)
+	if !c.FreshBase[b.id] {
+		return
+	}
+	if lb, ok := c.AllocLB[b.id]; ok {
+		c.AllocLB[v.id] = AllocBound{lb.Root, lb.Off + k}
+		return
+	}
+	c.AllocLB[v.id] = AllocBound{b, k}
+}
+
+// allocBound: t (counter or counter+k) equals root+off exactly, or is at least root+off.
+func (c *Ctx) allocBound(t *Term) (root *Term, off uint64, exact bool) {
+	b, k := splitAdd(t)
+	if lb, ok := c.AllocLB[b.id]; ok {
+		return lb.Root, lb.Off + k, false
+	}
+	return b, k, true
 }
 
 // freshRef returns the allocation-counter base of a freshly allocated reference (base or base+k).
